@@ -24,7 +24,10 @@ MANIFEST = dict(
          "of the box sampler is the unit vector of the equatorial output for the same deviates (polynomial normal form modulo the circle "
          "relations); the stored cumulative table and abscissae hold every grid point (no element selection on top of them); with no ranges given "
          "the box sampler returns the terms of the box [0,360]x[-90,90]; the constructor of the cumulative sampler is evaluated along every "
-         "path its arguments leave open and ends with the passed generator (or RandomState(seed)) stored.",
+         "path its arguments leave open and ends with the passed generator (or RandomState(seed)) stored; element types (abstract domain "
+         "{holds a double, does not, the caller's own type} resp. integer widths): no conversion, typed output array or in-place update between "
+         "M.r + mean and the returned samples narrows the floating values (the constructor's stored copies included), and a conversion of the drawn "
+         "indices is to an integer type that holds imax-1 for every imax its path admits.",
     note="Not decided: distributional correctness, containment numerically. Trusted: numpy Generator/RandomState APIs, scipy "
          "cumulative_trapezoid, sympy normaliser.",
     technique="static analysis: abstract interpretation over a symbolic term domain (draws as uninterpreted deviates), who-may-call RNG discipline, AST provenance rules",
@@ -1409,8 +1412,195 @@ IDENT_FUNCS = {"numpy.array", "numpy.asarray", "numpy.atleast_1d", "numpy.atleas
 IDENT_METHODS = {"copy", "astype", "view"}
 BUILTIN_TYPES = {"bool", "int", "float", "complex", "object", "str"}
 SETITEM, INVERT, SL = Fn("SETITEM"), Fn("INVERT"), Fn("SL")
+CAST = Fn("CAST")
 CMP = {ast.Lt: Fn("CMP_lt"), ast.LtE: Fn("CMP_le"), ast.Gt: Fn("CMP_gt"), ast.GtE: Fn("CMP_ge"), ast.Eq: Fn("CMP_eq"), ast.NotEq: Fn("CMP_ne")}
 ARITH_FUNCS = {"numpy.add": ast.Add, "numpy.subtract": ast.Sub, "numpy.multiply": ast.Mult, "numpy.divide": ast.Div, "numpy.true_divide": ast.Div}
+
+
+# ---- element types ------------------------------------------------------------------------------------------------------------
+# numpy's allocation functions: position of the dtype argument, and what the element type is when none is given
+BUFFER_FUNCS = {"numpy.empty": (1, "f8"), "numpy.zeros": (1, "f8"), "numpy.ones": (1, "f8"), "numpy.ndarray": (1, "f8"), "numpy.full": (2, "fill"),
+                "numpy.empty_like": (1, "proto"), "numpy.zeros_like": (1, "proto"), "numpy.ones_like": (1, "proto"), "numpy.full_like": (2, "proto")}
+
+
+def _all_full(sl):
+    """the subscript is `:, :` (, ...): every element of the array"""
+    return isinstance(sl, ast.Tuple) and bool(sl.elts) and all(isinstance(x, ast.Slice) and x.lower is None and x.upper is None and x.step is None for x in sl.elts)
+
+
+def _own_dtype(t):
+    """the element type (a dtype term) that the array t keeps when values are stored into it: the one it was allocated with or
+    converted to, otherwise `its own` (ATTR_dtype(t), decided from the term by elem_class)"""
+    n = fname(t)
+    if n == "CAST":
+        return t.args[1]
+    if n in BUFFER_FUNCS:
+        pos, default = BUFFER_FUNCS[n]
+        plain = [a for a in t.args if not fname(a).startswith("KW_")]
+        for a in t.args:
+            if fname(a) == "KW_dtype":
+                if a.args[0] != NONE_T:
+                    return a.args[0]
+                plain = plain[:pos]
+        if len(plain) > pos and plain[pos] != NONE_T:
+            return plain[pos]
+        if default == "f8":
+            return sp.Symbol("'f8'")
+        if default == "proto" and plain:
+            return Fn("ATTR_dtype")(plain[0])
+        if default == "fill" and len(plain) > 1:
+            return Fn("ATTR_dtype")(plain[1])
+        return sp.Symbol("unknown-dtype")
+    return Fn("ATTR_dtype")(t)
+
+
+def _dtype_table():
+    """name of a numpy element type -> (kind, bits): kind 'b' bool, 'i' signed, 'u' unsigned, 'f' floating, 'c' complex.  LP64 Linux
+    (DESIGN section 4.6): C long and numpy's default integer are 8 bytes"""
+    t = {}
+    for bits in (8, 16, 32, 64):
+        t["i%d" % (bits // 8)] = t["int%d" % bits] = ("i", bits)
+        t["u%d" % (bits // 8)] = t["uint%d" % bits] = ("u", bits)
+    for names, kb in (
+            (("bool", "bool_", "bool8", "?", "b1"), ("b", 1)),
+            (("b", "byte"), ("i", 8)), (("B", "ubyte"), ("u", 8)), (("h", "short"), ("i", 16)), (("H", "ushort"), ("u", 16)),
+            (("i", "intc"), ("i", 32)), (("I", "uintc"), ("u", 32)),
+            (("l", "q", "p", "n", "int", "int_", "intp", "long", "longlong"), ("i", 64)),
+            (("L", "Q", "P", "N", "uint", "uintp", "ulong", "ulonglong"), ("u", 64)),
+            (("e", "f2", "float16", "half"), ("f", 16)), (("f", "f4", "float32", "single"), ("f", 32)),
+            (("d", "f8", "float64", "float", "float_", "double"), ("f", 64)), (("g", "f16", "float128", "longdouble", "longfloat"), ("f", 128)),
+            (("F", "c8", "complex64", "csingle", "singlecomplex"), ("c", 64)),
+            (("D", "c16", "complex128", "complex", "complex_", "cdouble", "cfloat"), ("c", 128)),
+            (("G", "c32", "complex256", "clongdouble", "clongfloat", "longcomplex"), ("c", 256))):
+        for n in names:
+            t[n] = kb
+    return t
+
+
+DTYPES = _dtype_table()
+
+
+def _dtype_info(d):
+    """(kind, bits) of a dtype term that names an element type -- a string ('i4', '<f8', 'float64'), a numpy scalar type
+    (numpy.int32), a builtin (int, float, bool, complex), numpy.dtype(<one of these>) -- else None"""
+    if fname(d) == "numpy.dtype" and len(d.args) == 1:
+        return _dtype_info(d.args[0])
+    if not isinstance(d, sp.Symbol):
+        return None
+    n = str(d)
+    if len(n) >= 2 and n[0] == n[-1] and n[0] in "'\"":
+        n = n[1:-1].strip()
+        if n[:1] in "<>=|" and len(n) > 1:
+            n = n[1:]
+        return DTYPES.get(n)
+    if n.startswith("numpy."):
+        n = n[6:]
+        return DTYPES.get(n) if len(n) > 3 and n not in ("float", "complex") else None       # (scalar types; not the one-letter codes)
+    return DTYPES.get(n) if n in ("int", "float", "bool", "complex") else None
+
+
+def _holds_double(info):
+    return info[0] == "f" and info[1] >= 64 or info[0] == "c" and info[1] >= 128
+
+
+def dtype_class(d, inputs):
+    """abstract element type named by the dtype term d, for real-valued data: 'real' (holds every double: float64 or wider),
+    'narrow' (an integer, boolean or shorter floating type: a double stored into it is truncated or rounded), 'input:<name>' (the
+    element type of the caller's array <name>, which is whatever the caller passed: integer for integer data), None (not decided)"""
+    info = _dtype_info(d)
+    if info is not None:
+        return "real" if _holds_double(info) else "narrow"
+    n = fname(d)
+    if n == "numpy.dtype" and len(d.args) == 1:
+        return dtype_class(d.args[0], inputs)
+    if n == "ATTR_dtype":
+        return elem_class(d.args[0], inputs)
+    if n in ("numpy.result_type", "numpy.promote_types", "numpy.common_type") and d.args:
+        # at least as wide as every argument (arrays and dtypes alike)
+        return _promote([(dtype_class(a, inputs) if (_dtype_info(a) is not None or fname(a) in ("ATTR_dtype", "numpy.dtype")) else elem_class(a, inputs)) for a in d.args])
+    return None
+
+
+def _promote(cs):
+    if "real" in cs:
+        return "real"                  # a float64 operand makes the result float64 or wider, whatever the other real operands are
+    if None in cs or not cs:
+        return None
+    ins = sorted({c for c in cs if c.startswith("input:")})
+    if not ins:
+        return "narrow"
+    return ins[0] if len(ins) == 1 else "input:" + "+".join(c[6:] for c in ins)
+
+
+def elem_class(t, inputs):
+    """abstract element type (see dtype_class) of the array-valued term t; `inputs`: symbol -> class for the arrays the caller
+    passes.  Library facts used: arithmetic and dot promote to the widest operand; numpy.linalg.cholesky returns a floating factor;
+    a deviate source returns floating deviates; reshape / transpose / element and slice selection / copy keep the element type;
+    an in-place row update (`V[i, :] += m[i]`) keeps the type of the array updated"""
+    t = sp.sympify(t)
+    if t in inputs:
+        return inputs[t]
+    if t.is_number:
+        return "real" if (t.is_Float or (t.is_Rational and not t.is_Integer) or t.is_irrational) else "narrow"
+    n = fname(t)
+    if n == "CAST":
+        return dtype_class(t.args[1], inputs)
+    if n in BUFFER_FUNCS:
+        return dtype_class(_own_dtype(t), inputs)
+    if n in ("CHOL", "APPLY"):
+        return "real"
+    if n in ("T", "RESHAPE", "AT", "SLICE", "COL", "ATCOL", "ROWADDN", "M_copy", "M_ravel", "M_flatten", "M_squeeze", "numpy.transpose", "numpy.squeeze",
+             "numpy.ravel", "numpy.atleast_1d", "numpy.atleast_2d"):
+        return elem_class(t.args[0], inputs)
+    if n in ("DOT", "ROWADD", "COLADD"):
+        return _promote([elem_class(a, inputs) for a in t.args[:2]])
+    if isinstance(t, (sp.Add, sp.Mul)):
+        return _promote([elem_class(a, inputs) for a in t.args])
+    return None
+
+
+def value_casts(t):
+    """the CAST applications of t that convert (part of) the VALUE t stands for: not those inside shapes, counts, sizes, dtype
+    expressions, indices or the arguments a deviate source is called with"""
+    out = []
+
+    def go(x):
+        n = fname(x)
+        if not isinstance(x, sp.Basic) or not x.args or n in ("SHAPE", "SIZE", "LEN", "APPLY") or n.startswith(("ATTR_", "KW_")) or n in BUFFER_FUNCS:
+            return
+        if n == "CAST":
+            out.append(x)
+            go(x.args[0])
+        elif n in ("RESHAPE", "AT", "SLICE", "ATCOL", "SETITEM"):
+            go(x.args[0])
+        elif n == "ROWADDN":
+            go(x.args[0])
+            go(x.args[1])
+        else:
+            for a in x.args:
+                go(a)
+    go(sp.sympify(t))
+    return out
+
+
+def real_data_cast(c, inputs):
+    """(True / False / None, text) for one conversion CAST(value, dtype, where) of real-valued data (see dtype_class)"""
+    v, d, where = c.args
+    cd, cv = dtype_class(d, inputs), elem_class(v, inputs)
+    shown = "the element type `%s`" % str(d)[:60].replace("ATTR_dtype", "dtype of ")
+    if cd == "real":
+        return True, ""
+    if cd is None or cv is None:
+        return None, "%s converts %s to %s: not decided" % (where, str(v)[:80], shown)
+    if cd == cv or cv == "narrow":
+        return True, ""                # the value has that element type already (or is an integer constant)
+    if cd == "narrow":
+        return False, ("%s converts %s to %s, which does not hold a double: the fractional part (or the precision) of the %s is lost"
+                       % (where, str(v)[:100], shown, "floating values computed" if cv == "real" else "values the caller passed"))
+    if cv == "real":                   # cd is the element type of a caller's array
+        return False, ("%s converts the floating values %s to %s, i.e. to whatever the caller passed as `%s`: when that holds integers (a list of "
+                       "ints, an integer array) the values are truncated to integers" % (where, str(v)[:100], shown, cd[6:]))
+    return None, "%s converts %s (%s) to %s (%s): not decided" % (where, str(v)[:80], cv, shown, cd)
 
 
 def term(v):
@@ -1456,6 +1646,10 @@ class Mini:
         self.depth = 0                      # nesting of followed calls; `at`: the statement of the outermost function being evaluated
         self.at = None
         self.elementwise = False            # comparisons of array terms used as values are kept as terms (masks) instead of UNK
+        # element types: with keep_casts every conversion of a value to a named element type (astype, array(.., dtype=), int()/float(),
+        # a store into the whole of an array that has an element type of its own, an in-place update of such an array) stays in the
+        # term as CAST(value, element type, where); without it these are the identities they are on the values (the term rules)
+        self.keep_casts = False
 
     # ---- ranks / broadcasting -------------------------------------------
     def rank(self, t):
@@ -1545,6 +1739,26 @@ class Mini:
             return T_(x)
         return t.func(*[self.tnorm(a) for a in t.args])
 
+    # ---- element types -------------------------------------------------------
+    def cast(self, v, d, where):
+        if v is UNK or d is UNK:
+            return UNK
+        return CAST(term(v), term(d), sp.Symbol(where))
+
+    def converted(self, full, c, args, env, fi):
+        """value of a call of one of IDENT_FUNCS with the conversion it makes kept: int(x) / float(x) / numpy.float64(x), and
+        numpy.array(x, dtype=D) and its relatives (D also as second positional argument); dtype=None converts nothing"""
+        where = "`%s` at %s" % (norm(c)[:80], fi.where(c))
+        if full in ("int", "float", "numpy.float64"):
+            return self.cast(args[0], sp.Symbol(full), where)
+        kws = {k.arg: k.value for k in c.keywords}
+        d = None
+        if "dtype" in kws:
+            d = self.ev(kws["dtype"], env, fi)
+        elif len(args) > 1 and full in ("numpy.array", "numpy.asarray", "numpy.asanyarray", "numpy.ascontiguousarray"):
+            d = args[1]
+        return args[0] if d is None else self.cast(args[0], d, where)
+
     # ---- functions ---------------------------------------------------------
     def run(self, fi, bind):
         """value returned by fi (None when it falls off the end) with parameters bound to `bind` (defaults filled in)"""
@@ -1594,7 +1808,11 @@ class Mini:
             if not isinstance(st.target, (ast.Name, ast.Attribute)):
                 raise NoVerdict("augmented store into `%s` at %s" % (norm(st.target), fi.where(st)))
             cur = self.ev(symx._load(st.target), env, fi)
-            self.assign(st.target, self.binop(st.op, cur, self.ev(st.value, env, fi)), env, fi)
+            new = self.binop(st.op, cur, self.ev(st.value, env, fi))
+            if self.keep_casts and isinstance(cur, sp.Basic) and (fname(cur) == "CAST" or fname(cur) in BUFFER_FUNCS) and new is not UNK:
+                # an in-place update keeps the element type of the array it updates
+                new = self.cast(new, _own_dtype(cur), "the in-place update `%s` at %s" % (norm(st)[:80], fi.where(st)))
+            self.assign(st.target, new, env, fi)
             return
         if isinstance(st, ast.Return):
             raise _Ret(self.ev(st.value, env, fi) if st.value is not None else None)
@@ -1654,12 +1872,14 @@ class Mini:
                     self.assign(e, AT_(v, sp.Integer(i)), env, fi)
             else:
                 raise NoVerdict("cannot unpack %r at %s" % (v, fi.where(t)))
-        elif isinstance(t, ast.Subscript) and isinstance(t.value, ast.Name) and t.value.id in env and not isinstance(t.slice, ast.Tuple):
+        elif isinstance(t, ast.Subscript) and isinstance(t.value, ast.Name) and t.value.id in env and (not isinstance(t.slice, ast.Tuple) or _all_full(t.slice)):
             # part of a local array is overwritten: the local becomes SETITEM(old, where, value); a store into the whole of it
-            # (`a[:] = v`, `a[...] = v`) leaves the value stored
-            whole = isinstance(t.slice, ast.Constant) and t.slice.value is Ellipsis
+            # (`a[:] = v`, `a[...] = v`, `a[:, :] = v`) leaves the value stored -- converted to the element type the array has
+            whole = (isinstance(t.slice, ast.Constant) and t.slice.value is Ellipsis) or _all_full(t.slice)
             it = ":" if whole else self.index_item(t.slice, env, fi)
             if it == ":":
+                if self.keep_casts:
+                    v = self.cast(v, _own_dtype(term(env[t.value.id])), "the store into `%s` at %s" % (norm(t), fi.where(t)))
                 env[t.value.id] = v
             elif it == "newaxis":
                 raise NoVerdict("store into `%s` at %s" % (norm(t), fi.where(t)))
@@ -1727,6 +1947,7 @@ class Mini:
         if rel is sp.true or rel is sp.false:
             return bool(rel)
         key, pol = _atom_key(rel)
+        ATOM_RELS[key] = rel if pol else sp.Not(rel)
         if key not in self.forced:
             self.forced[key] = True
             self.trail.append(key)
@@ -1979,7 +2200,9 @@ class Mini:
         if full is not None:
             leaf = full.rsplit(".", 1)[-1]
             if full in IDENT_FUNCS and args:
-                return args[0]
+                return self.converted(full, c, args, env, fi) if self.keep_casts else args[0]
+            if self.keep_casts and len(args) == 1 and not c.keywords and _dtype_info(sp.Symbol(full)) is not None and full.startswith("numpy."):
+                return self.cast(args[0], sp.Symbol(full), "`%s` at %s" % (norm(c)[:80], fi.where(c)))     # numpy.int32(x), numpy.float32(x)
             if full in ARITH_FUNCS and len(args) == 2 and not c.keywords:
                 return self.binop(ARITH_FUNCS[full], args[0], args[1])
             if full in ("numpy.dot", "numpy.matmul") and len(args) == 2 and not c.keywords:
@@ -2026,6 +2249,11 @@ class Mini:
                 raise NoVerdict("method `%s` of a table at %s" % (f.attr, fi.where(c)))
             r = term(recv)
             if f.attr in IDENT_METHODS:
+                if self.keep_casts and f.attr == "astype":
+                    kws = {k.arg: k.value for k in c.keywords}
+                    d = args[0] if args else (self.ev(kws["dtype"], env, fi) if "dtype" in kws else None)
+                    if d is not None:
+                        return self.cast(r, d, "`%s` at %s" % (norm(c)[:80], fi.where(c)))
                 return r
             if f.attr == "transpose" and not args and not c.keywords:
                 return T_(r)
@@ -2054,7 +2282,10 @@ def _atom_key(rel):
     return (a, True) if a <= b else (b, False)
 
 
-def mini_paths(repo, q, bind, state=None, ranks=None, limit=32):
+ATOM_RELS = {}      # text of a path atom (see _atom_key) -> the sympy relation it stands for when taken as true
+
+
+def mini_paths(repo, q, bind, state=None, ranks=None, limit=32, casts=False):
     """every path of the package function q that the literal flags leave open: [(atoms assumed {text: bool}, value or NoVerdict)];
     paths that end in raise are left out (the request is refused).  Undecided comparisons of input terms are explored both ways,
     consistently along a path; anything else undecided ends that path without a verdict."""
@@ -2067,6 +2298,7 @@ def mini_paths(repo, q, bind, state=None, ranks=None, limit=32):
         mv = Mini(repo, ranks)
         mv.state.update(state or {})
         mv.forced = dict(forced)
+        mv.keep_casts = casts
         raised = False
         try:
             v = mv.run(repo.func(q), bind)
@@ -2132,11 +2364,12 @@ def _partial_store(t):
     return any(_partial_store(a) for a in t.args)
 
 
-def mini_run(repo, q, bind, state=None, ranks=None, elementwise=False):
+def mini_run(repo, q, bind, state=None, ranks=None, elementwise=False, casts=False):
     """(value, final object state, evaluator) of the package function q; value is a NoVerdict instance when it was not evaluated"""
     mv = Mini(repo, ranks)
     mv.state.update(state or {})
     mv.elementwise = elementwise
+    mv.keep_casts = casts
     try:
         v = mv.run(repo.func(q), bind)
     except NoVerdict as e:
@@ -2475,6 +2708,9 @@ def cholesky(chk, repo):
                "M is the (lower-triangular) Cholesky factor of the stored covariance (self.M = %s, self.cov = %s)" % (st["self.M"], st.get("self.cov")))
         chk.ob(R, fi.qualname + "::deviate-source", st.get("self.dist") == dist_s and st0.get("self.dist") == sp.Symbol("numpy.random.randn"), fi.where(),
                "the deviate source is the one passed (default numpy.random.randn): %s / %s" % (st.get("self.dist"), st0.get("self.dist")))
+    # the object as the constructor leaves it, conversions kept (element types of what it stores)
+    vc, stc, _ = mini_run(repo, fi.qualname, {"mean": mean_s, "cov": cov_s, "dist": dist_s}, casts=True)
+    built = None if isinstance(vc, NoVerdict) or any(not isinstance(x, (sp.Basic, str, bool, tuple, type(None))) for x in stc.values()) else dict(stc)
     for q in (RA + "CholeskySampler.sample", RA + "cholesky_sample"):
         fi = repo.func(q)
         chk.analysed_unit(q)
@@ -2503,9 +2739,25 @@ def cholesky(chk, repo):
 
         keys = [q + "::deviates", q + "::factor-times-deviates", q + "::mean-added-per-parameter", q + "::returns-transpose"] + ([] if method else [q + "::factor"])
         c, mv = evaluate(bind)
+        key_t = q + "::values-not-narrowed"
         if not isinstance(c, sp.Basic):
-            _none(chk, R, keys, w, "sampler not evaluated: %s" % (c,))
+            _none(chk, R, keys + [key_t], w, "sampler not evaluated: %s" % (c,))
             continue
+        # element types: mean + M.r is a floating quantity; whatever the result passes through on its way out (a conversion, a
+        # preallocated output array, an in-place update of one) must be able to hold it.  Decided on the term with the conversions
+        # kept, over the abstract element types {holds a double, does not, the caller's own type}; the object state is the one the
+        # constructor builds (so a constructor that converts the means to floating point discharges `dtype of self.mean`)
+        inputs = {mean_s: "input:mean", cov_s: "input:cov", sp.Symbol("means"): "input:means"}
+        cc, _, _ = mini_run(repo, q, bind, state=built if method else None, ranks=ranks, casts=True)
+        if not isinstance(cc, sp.Basic):
+            chk.ob(R, key_t, None, w, "element type of the result not followed: %s" % (cc,))
+        else:
+            verdicts = [real_data_cast(x, inputs) for x in value_casts(cc)]
+            bad = [m for okc, m in verdicts if okc is False]
+            und = [m for okc, m in verdicts if okc is None]
+            chk.ob(R, key_t, False if bad else (None if und else True), w,
+                   "the samples are mean + M.r as floating values: nothing between the arithmetic and the result converts them to an element type that "
+                   "cannot hold them%s" % (": " + bad[0] if bad else (" (" + und[0] + ")" if und else " (%d conversion(s) on the way, each to a type that holds a double or to the value's own type)" % len(verdicts))))
         want, Rr, prod = ref(n_s)
         # npar*n standard deviates, drawn once from the deviate source, shaped (npar, n)
         drawn = applications(c, "APPLY")
@@ -2627,6 +2879,58 @@ def _choice_paths(repo, q, bind):
     return out
 
 
+def _largest_exact(info):
+    """largest L such that every integer 0..L is a value of the element type (kind, bits)"""
+    kind, bits = info
+    if kind == "b":
+        return 1
+    if kind == "i":
+        return 2 ** (bits - 1) - 1
+    if kind == "u":
+        return 2 ** bits - 1
+    if kind == "c":
+        bits //= 2
+    return {16: 2 ** 11, 32: 2 ** 24, 64: 2 ** 53}.get(bits, 2 ** 64)
+
+
+def index_cast(c, atoms, imax):
+    """(True / False / None, text) for a conversion CAST(indices, dtype, where) of indices drawn from [0, imax) on the path described
+    by `atoms` ({atom text: truth value}, relations in ATOM_RELS): the largest imax the path admits, minus one, must be a value of
+    the type.  The generator returns 8-byte signed integers, so every type that holds those is wide enough whatever imax is"""
+    v, d, where = c.args
+    info = _dtype_info(d)
+    if info is None:
+        return None, "%s converts the indices to the element type `%s`: not decided" % (where, str(d)[:60])
+    top = _largest_exact(info)
+    if top >= 2 ** 63 - 1:
+        return True, ""
+    rels = [ATOM_RELS[k] if val else sp.Not(ATOM_RELS[k]) for k, val in atoms.items() if k in ATOM_RELS]
+    if len(rels) != len(atoms):
+        return None, "%s: path condition not followed" % where
+    own = [r for r in rels if r.free_symbols == {imax}]
+    mixed = [r for r in rels if imax in r.free_symbols and r.free_symbols != {imax}]
+    x = sp.Symbol("imax_", real=True)
+    try:
+        S = sp.And(*[r.subs(imax, x) for r in own]).as_set() if own else sp.S.Reals
+        if S is sp.S.EmptySet:
+            return True, ""                # no imax takes this path
+        sup = S.sup
+        most = None if sup is sp.oo else (sp.floor(sup) if S.contains(sup) == True else sp.ceiling(sup) - 1)      # noqa: E712
+    except Exception as ex:
+        return None, "%s: range of imax on the path not solved (%s)" % (where, type(ex).__name__)
+    if most is not None and most - 1 <= top:
+        return True, ""
+    if mixed:
+        return None, "%s: imax is constrained together with other arguments on the path (%s): not decided" % (where, _path_text(atoms))
+    wit = most if most is not None else top + 2
+    return False, ("%s converts the drawn indices to %s%d-bit %s (largest value %d) %s; that path admits imax %s, e.g. imax = %d draws "
+                   "indices up to %d, which the type does not hold: they wrap around (negative or reduced modulo 2**%d) and leave [0, imax)"
+                   % (where, "" if info[0] != "b" else "boolean / ", info[1], {"i": "signed integers", "u": "unsigned integers", "b": "values", "f": "floating point",
+                                                                              "c": "complex floating point"}[info[0]], top,
+                      "on the path taken when " + _path_text(atoms) if atoms else "on a path taken for every input",
+                      "up to %d" % most if most is not None else "without an upper limit", wit, wit - 1, info[1]))
+
+
 def indices(chk, repo):
     """the verdicts hold for EVERY returning path: a test on the inputs that the literal flag values do not decide (`nrand > imax`,
     `imax < 0`, ...) is explored both ways, paths ending in raise are refusals and constrain nothing"""
@@ -2660,6 +2964,20 @@ def indices(chk, repo):
         bad = [(t, a) for t, a, _ in allp if not (a["recv"] == gen and a.get("a") == imax and a.get("size") == nrand and "p" not in a)]
         chk.ob(R, fi.qualname + "::choice-on-generator", not bad, w, "indices are rng.choice(imax, size=nrand, replace=replace): range [0,imax), requested count%s"
                % ("" if not bad else " (where %s: %s)" % (bad[0][0], {k: str(v) for k, v in bad[0][1].items()})))
+    # element type of the result: the drawn indices are integers in [0, imax); a conversion of them (astype, array(.., dtype=), a typed
+    # output array) must be to a type that holds imax-1 for every imax the path admits, otherwise they wrap and leave the range
+    verdicts = []
+    for uq in (True, False):
+        for atoms, v in mini_paths(repo, fi.qualname, {"imax": imax, "nrand": nrand, "unique": uq, "rng": gen, "seed": seed}, casts=True):
+            if not isinstance(v, sp.Basic):
+                verdicts.append((None, "on the path where %s the result is not followed: %s" % (_path_text(atoms), v)))
+                continue
+            verdicts += [index_cast(x, atoms, imax) for x in value_casts(v) if applications(x.args[0], "M_choice")]
+    bad = [m for okc, m in verdicts if okc is False]
+    und = [m for okc, m in verdicts if okc is None]
+    chk.ob(R, fi.qualname + "::index-type-holds-range", False if bad else (None if und else True), w,
+           "the indices stay in [0, imax) for every imax: a conversion of the drawn indices is to an integer type that holds imax-1 on the path it is made on%s"
+           % (": " + bad[0] if bad else (" (" + und[0] + ")" if und else " (%d conversion(s))" % len(verdicts))))
     paths = _choice_paths(repo, fi.qualname, {"imax": imax, "nrand": nrand, "unique": True, "rng": None, "seed": seed})
     if not paths or any(not (isinstance(v, sp.Basic) and len(applications(v, "M_choice")) == 1) for _, _, v in paths):
         chk.ob(R, fi.qualname + "::seeded-fallback", None, w, "choice application not recognised: %s" % ([str(v)[:160] for _, _, v in paths],))
